@@ -371,6 +371,15 @@ fn main() {
                     "refs/jj/remote-tags/origin",
                     "HEAD",
                     "refs/heads",
+                    "refs/heads/head",
+                    "refs/heads/Head",
+                    "refs/remotes/origin/head",
+                    "refs/remotes/Git/main",
+                    "refs/remotes/GIT/HEAD",
+                    "refs/Heads/main",
+                    "refs/Tags/v1",
+                    "Refs/heads/main",
+                    "refs/jj/remote-tags/Git/v1",
                 ];
                 let r = *rng.pick(EDGE_REFS);
                 o.parse(r, true);
@@ -379,8 +388,10 @@ fn main() {
             if rng.chance(1, 6) {
                 let s = Sym {
                     tag: rng.chance(1, 2),
-                    name: rng.pick(&["HEAD", "", "HEAD/x", "x/HEAD", "refs/heads/main"]).to_string(),
-                    remote: rng.pick(&["git", "origin", "", "HEAD"]).to_string(),
+                    name: rng
+                        .pick(&["HEAD", "", "HEAD/x", "x/HEAD", "refs/heads/main", "head", "Head"])
+                        .to_string(),
+                    remote: rng.pick(&["git", "origin", "", "HEAD", "Git", "GIT"]).to_string(),
                 };
                 o.export(&s, true);
                 o.rtag_export(&s);
